@@ -110,7 +110,47 @@ def main(tier):
             cid = "p%d_%d" % (n, j)
             cases.append(rel.case(cid, text))
             meta[cid] = ("b%d" % n, list(p), m, base, text)
+    # documents with one fault that no ordering can cure (two declarations that clash): rejected in every order
+    import c11
+    faulty = {}
+    for n, m in enumerate(docs):
+        tx = (m.get("tx") or [{}])[0]
+        f = tx.get("fault")
+        if not f or f["f"] not in ("similar_path", "dup_url", "dup_method", "dup_name"):
+            continue
+        try:
+            r = c11.inject(m["doc"], f)
+        except Exception:
+            r = None
+        if r is None:
+            continue
+        fd = r[0]
+        idx = list(range(len(fd)))
+        perms = [idx, idx[::-1]]
+        for _ in range(3):
+            p = idx[:]
+            rnd.shuffle(p)
+            if p not in perms:
+                perms.append(p)
+        for j, p in enumerate(perms):
+            try:
+                text, _, _ = apidoc.render([fd[i] for i in p])
+            except Exception:
+                continue
+            cid = "fp%d_%d" % (n, j)
+            cases.append(rel.case(cid, text))
+            faulty[cid] = (f, p, text)
     obs = harness("run", cases)
+    for cid, (f, p, text) in faulty.items():
+        o = obs[cid]
+        chk.evaluations += 1
+        chk.traces += 1
+        chk.nontrivial.add(text)
+        if o["outcome"] == "ok":
+            sig = {"what": "clash accepted in one order", "allof_depth": "0", "msg": f["f"]}
+            chk.violation("reordering top-level declarations %s: two clashing declarations (%s) are rejected in other orders but accepted in this one | document:\n%s" % (
+                p, f["f"], text[:1200]), {"kind": "perm_faulty", "fault": f, "perm": p, "variant": text, "observed_variant": o, "signature": sig}, sig)
+    chk.extra["clashing_documents_permuted"] = len(faulty)
     for cid, (bid, p, m, base, text) in meta.items():
         chk.evaluations += 1
         chk.traces += 1
